@@ -25,14 +25,6 @@ def find_skippers(prog):
     return out
 
 
-def _depth_expr(b):
-    # the depth parameter: arg named depth, or (for the async closure) captured field
-    for i in range(1, b.argc + 1):
-        if b.local_name(i) == 'depth':
-            return ('arg', i, 'depth')
-    return None
-
-
 def recursive_calls(b):
     return [cs for cs in b.calls() if cs.name == 'skip_till_depth']
 
